@@ -11,6 +11,7 @@ A description is a dict:
   }
   rec = {"t": time_ns, "type": 0|1|2|3, "depth": d, "addr": absolute_addr_or_event_id,
          "more": 0|1, "payload": bytes}      (payload already in on-disk form, see encode_args)
+  optional: "cpuinfo": "Intel ..."  adds the cpuinfo lines (readers derive the architecture from them)
 """
 import os
 import struct
@@ -88,6 +89,11 @@ def write(desc, d, with_cmdline=True, argspec=None, extra_info=None):
         info_mask |= INFO_CMDLINE
         cl = desc.get("cmdline", "uftrace record prog")
         lines.append(b"cmdline:" + (cl if isinstance(cl, bytes) else cl.encode()))
+    if desc.get("cpuinfo"):
+        # the readers take the CPU architecture (register names in arg specs) from the cpuinfo description
+        info_mask |= INFO_CPUINFO
+        lines += [b"cpuinfo:lines=2", b"cpuinfo:nr_cpus=1 / 1 (online/possible)",
+                  b"cpuinfo:desc=" + desc["cpuinfo"].encode()]
     tids = [t["tid"] for t in tasks]
     lines += [b"taskinfo:lines=2", ("taskinfo:nr_tid=%d" % len(tids)).encode(),
               ("taskinfo:tids=%s" % ",".join(map(str, tids))).encode()]
